@@ -230,6 +230,16 @@ def build(cfg, values=None):
             else:
                 fx = [ctx.V('Fx'), ctx.V('Fy'), ctx.V('fx'), ctx.V('fy'), ctx.V('fz')]
                 bay.forces_skin.append(fx)
+                # point forces on the stiffener components as well (flange of a BladeStiff2D, base and flange of a TStiff2D)
+                sforces = {}
+                for si, (kind, s_) in enumerate(comps):
+                    for region in (('base', 'flange') if kind == 'T2' else (('flange',) if kind == 'B2' else ())):
+                        comp_panel = getattr(s_, region)
+                        if comp_panel is None:
+                            continue
+                        f = [ctx.V('S%d%s_%s' % (si, region[0], nm)) for nm in ('x', 'y', 'fx', 'fy', 'fz')]
+                        comp_panel.add_force(*f)
+                        sforces[(id(s_), region)] = (comp_panel, f)
                 fext = bay.calc_fext(silent=True)
                 obs.append(('fext-length', Sym.lift(len(fext)), Sym.lift(total)))
                 S = series_of(bay.panels[0], 'plate')
@@ -238,8 +248,78 @@ def build(cfg, values=None):
                     F = {'u': fx[2], 'v': fx[3], 'w': fx[4]}[comp]
                     k = S.dof(i, j, comp)
                     obs.append(('bay-fext[%d]' % k, fext[k], F * PW.basis(ctx.atoms, S, comp, i, j, 0, 0, xi, eta)))
-                for k in range(3 * bay.m * bay.n, total):
-                    obs.append(('bay-fext-stiffener-part[%d]' % k, fext[k], 0))
+                expected = {}
+                for (sid, region), (comp_panel, f) in sforces.items():
+                    lo, hi = rng[sid][region]
+                    Sc = series_of(comp_panel, 'plate')
+                    xi_c, eta_c = 2 * f[0] / comp_panel.a - 1, 2 * f[1] / comp_panel.b - 1
+                    for (i, j, comp) in Sc.dofs():
+                        F = {'u': f[2], 'v': f[3], 'w': f[4]}[comp]
+                        expected[lo + Sc.dof(i, j, comp)] = F * PW.basis(ctx.atoms, Sc, comp, i, j, 0, 0, xi_c, eta_c)
+                for k in range(3 * bay.m * bay.n, min(total, len(fext))):
+                    obs.append(('bay-fext-stiffener-part[%d]' % k, fext[k], expected.get(k, 0)))
+        elif variant == 'tstiff-parts':
+            # TStiff2D.calc_k0 against its explicit composition from the stiffener's DEFINITION (spans, junction lines, strip):
+            # base + flange + skin/base penalty blocks on [ys - bb/2, ys + bb/2] + base/flange connection on the lines
+            # y_base = (eta_conn_base + 1)/2 * bb, y_flange = (eta_conn_flange + 1)/2 * bf
+            from compmech.panel.connections import calc_kt_kr
+            bay, comps = make_bay(ctx, cfg)
+            rng, total = expected_layout(bay, comps)
+            kind, st = comps[0]
+            sp = st._verif_spec
+            ecb, ecf = ctx.V('eta_conn_base'), ctx.V('eta_conn_flange')
+            st.eta_conn_base, st.eta_conn_flange = ecb, ecf
+            bay.get_size()
+            r0 = rng[id(st)]['start']
+            st.calc_k0(size=total, row0=r0, col0=r0, silent=True, finalize=False)
+            K = finalize_symmetric_matrix(st.k0).todict()
+            rf = r0 + 3 * st.base.m * st.base.n
+            tot = st.base.calc_k0(size=total, row0=r0, col0=r0, silent=True, finalize=False)
+            tot = tot + st.flange.calc_k0(size=total, row0=rf, col0=rf, silent=True, finalize=False)
+            conn = LazyNS(ctx.kernels, STIFF['tstiff2d_clt_donnell_bardell'])
+            bfk = LazyNS(ctx.kernels, CONN['BFycte'])
+            ktpb, krpb = calc_kt_kr(st.panel1, st.base, 'bot-top')
+            y1, y2 = sp['ys'] - sp['bb'] / 2, sp['ys'] + sp['bb'] / 2
+            bflags = [getattr(bay, c_ + e_ + d_) for d_ in 'xy' for c_ in 'uvw' for e_ in ('1t', '1r', '2t', '2r')]
+            sflags = [getattr(st.base, c_ + e_ + d_) for d_ in 'xy' for c_ in 'uvw' for e_ in ('1t', '1r', '2t', '2r')]
+            tot = tot + conn.fkCppy1y2(y1, y2, ktpb, bay.a, bay.b, st.dpb, bay.m, bay.n, *bflags, total, 0, 0)
+            tot = tot + conn.fkCpby1y2(y1, y2, ktpb, bay.a, bay.b, st.dpb, bay.m, bay.n, st.base.m, st.base.n, *bflags, *sflags, total, 0, r0)
+            tot = tot + conn.fkCbbpby1y2(y1, y2, ktpb, bay.a, bay.b, st.base.m, st.base.n, *sflags, total, r0, r0)
+            ktbf, krbf = calc_kt_kr(st.base, st.flange, 'ycte')
+            yb, yf = (ecb + 1) / 2 * sp['bb'], (ecf + 1) / 2 * sp['bf']
+            tot = tot + bfk.fkCBFycte11(ktbf, krbf, st.base, yb, total, r0, r0)
+            tot = tot + bfk.fkCBFycte12(ktbf, krbf, st.base, st.flange, yb, yf, total, r0, rf)
+            tot = tot + bfk.fkCBFycte22(ktbf, krbf, st.base, st.flange, yf, total, rf, rf)
+            H = finalize_symmetric_matrix(tot).todict()
+            for k in sorted(set(K) | set(H)):
+                obs.append(('tstiff2d-k0-vs-parts[%d,%d]' % (k[0], k[1]), K.get(k, 0), H.get(k, 0)))
+            obs += wiring_obligations(bay, comps)
+        elif variant == 'blade2d-parts':
+            # BladeStiff2D.calc_k0 against its explicit composition from the stiffener's definition
+            from compmech.panel.connections import calc_kt_kr
+            bay, comps = make_bay(ctx, cfg)
+            rng, total = expected_layout(bay, comps)
+            kind, st = comps[0]
+            sp = st._verif_spec
+            bay.get_size()
+            r0 = rng[id(st)]['start']
+            st.calc_k0(size=total, row0=r0, col0=r0, silent=True, finalize=False)
+            K = finalize_symmetric_matrix(st.k0).todict()
+            tot = 0.
+            if st.base is not None:
+                tot = tot + st.base.calc_k0(size=total, row0=0, col0=0, silent=True, finalize=False)
+            tot = tot + st.flange.calc_k0(size=total, row0=r0, col0=r0, silent=True, finalize=False)
+            kt, kr = calc_kt_kr(st.base if st.base is not None else st.panel1, st.flange, 'ycte')
+            mod = LazyNS(ctx.kernels, STIFF['bladestiff2d_clt_donnell_bardell'])
+            bflags = [getattr(bay, c_ + e_ + d_) for d_ in 'xy' for c_ in 'uvw' for e_ in ('1t', '1r', '2t', '2r')]
+            fflags = [getattr(st.flange, c_ + e_ + d_) for d_ in 'xy' for c_ in 'uvw' for e_ in ('1t', '1r', '2t', '2r')]
+            tot = tot + mod.fkCss(kt, kr, sp['ys'], bay.a, bay.b, bay.m, bay.n, *bflags, total, 0, 0)
+            tot = tot + mod.fkCsf(kt, kr, sp['ys'], bay.a, bay.b, sp['bf'], bay.m, bay.n, sp['spec']['mf'], sp['spec']['nf'], *bflags, *fflags, total, 0, r0)
+            tot = tot + mod.fkCff(kt, kr, bay.a, sp['bf'], sp['spec']['mf'], sp['spec']['nf'], *fflags, total, r0, r0)
+            H = finalize_symmetric_matrix(tot).todict()
+            for k in sorted(set(K) | set(H)):
+                obs.append(('bladestiff2d-k0-vs-parts[%d,%d]' % (k[0], k[1]), K.get(k, 0), H.get(k, 0)))
+            obs += wiring_obligations(bay, comps)
         elif variant == 'partition':
             which = cfg['which']
             res = []
@@ -351,6 +431,9 @@ def configs(tier, seed):
         if 'B1' not in name:
             out.append({'variant': 'bay-fields', 'm': 1, 'n': 2, 'stiffeners': st, 'group': 'bay-fields:%s' % name})
         out.append({'variant': 'bay-fext', 'm': 2, 'n': 1, 'stiffeners': st, 'group': 'bay-fext:%s' % name})
+    out.append({'variant': 'blade2d-parts', 'm': 1, 'n': 2, 'stiffeners': [B2(2, 1, True)], 'group': 'bladestiff2d-k0-composition'})
+    out.append({'variant': 'blade2d-parts', 'm': 2, 'n': 1, 'stiffeners': [B2(1, 2)], 'group': 'bladestiff2d-k0-composition'})
+    out.append({'variant': 'tstiff-parts', 'm': 1, 'n': 2, 'stiffeners': [T(1, 2, 2, 1)], 'group': 'tstiff2d-k0-composition'})
     for which in ('k0', 'kG0', 'kM'):
         for cuts in ((1, 2) if quick else (1, 2, 3, 4)):
             out.append({'variant': 'partition', 'which': which, 'm': 2, 'n': 2, 'cuts': cuts, 'group': 'skin-partition:%s' % which})
